@@ -1115,6 +1115,12 @@ package process
 //@   callsite[C04] C04.fwdRelay (*process.Process).transitionLoop#1: arg0 == process && f.to_c.IsSelf && !f.to_drop && relayed(process.Body, f.to_c, message) && (message.Rule == SND || message.Rule == CLS || message.Rule == SEL || message.Rule == CST || message.Rule == FWD) && ite(message.Rule == FWD, process.Providers == message.Providers, process.Providers == old(process.Providers))
 //@   callsite[C04] C04.fwdDropRequest (*process.Process).terminateForward#2: arg0 == process && f.to_drop && sent[f.from_c.Channel] == old(sent[f.from_c.Channel]) + 1 && lastSent[f.from_c.Channel].Rule == GC
 
+// the definition a call runs is the first one of that name whose arity is the call's, or one less (explicit self)
+//@ macro fits(d FunctionDefinition, name string, arity int) bool = d.FunctionName == name && (len(d.Parameters) == arity || len(d.Parameters) == arity - 1)
+//@ contract GetFunctionByNameArity
+//@   loop[C04] 1 invariant forall j int :: 0 <= j && j <= idx ==> !fits(functions[j], name, arity)
+//@   ensures[C04] C04.lookupNone: result == nil ==> (forall j int :: 0 <= j && j < len(functions) ==> !fits(functions[j], name, arity))
+//@   ensures[C04] C04.lookupFirst: result != nil ==> (exists k int :: 0 <= k && k < len(functions) && fits(functions[k], name, arity) && (forall j int :: 0 <= j && j < k ==> !fits(functions[j], name, arity)) && result.Body == functions[k].Body && result.Parameters == functions[k].Parameters && result.ExplicitProvider == functions[k].ExplicitProvider && result.UsesExplicitProvider == functions[k].UsesExplicitProvider)
 // the copy is a new term: whatever is done to it leaves the original alone
 //@ contract CopyForm
 //@   ensures[C04] C04.copyFresh: result == nil || born(result) >= old(allocCounter())
